@@ -282,6 +282,16 @@ def _coherence(g, dist, fam, params, rd, discrete, L, viol, stats):
         if abs(total - 1.0) > 1e-6 + tail:
             viol("not_normalised", f"probabilities up to {k_hi} sum to {total!r} (reference tail beyond it {tail:.2e})",
                  ["deficit:below_5pct"] if 0 < 1.0 - total < 0.05 else [])
+        # ... also for intervals that start at 0 (the first unit of a block in mol_prob)
+        if len(pts) == len(ks) and k_lo == 0:
+            for frac in (0.3, 0.7):
+                b = ks[int(frac * (len(ks) - 1))]
+                if b > 0:
+                    pi = float(dist.prob_mw(_interval(g, 0.0, float(b))))
+                    sm = sum(p for k, p in zip(pts, ps) if 0 < k <= b)
+                    if abs(pi - sm) > 1e-9 + 1e-7 * abs(sm):
+                        viol("interval_vs_point_probability", f"P(0 < M <= {b}) reported as {pi!r}, point probabilities sum to {sm!r}", ["interval_from_zero"])
+                        break
         # interval probability equals the sum of point probabilities
         if len(pts) == len(ks):
             a = ks[len(ks) // 4]
